@@ -6,10 +6,10 @@ import (
 	"github.com/pion/rtcp"
 )
 
-const numUnits = 11
+const numUnits = 12
 
 var unitNames = [...]string{"Header", "ReceptionReport", "SourceDescriptionChunk", "SourceDescriptionItem",
-	"RunLengthChunk", "StatusVectorChunk", "RecvDelta", "Chunk", "CCFeedbackReportBlock.String", "enum.String", "raw-decode"}
+	"RunLengthChunk", "StatusVectorChunk", "RecvDelta", "Chunk", "CCFeedbackReportBlock.String", "enum.String", "raw-decode", "NewCNAMESourceDescription"}
 
 //go:noinline
 func vopUnitMarshal(m interface{ Marshal() ([]byte, error) }) ([]byte, error) { return m.Marshal() }
@@ -89,6 +89,12 @@ func unitOp(res *opResult, kind int, seed uint64) {
 	case 7:
 		for i := 0; i < 4; i++ {
 			c := rtcp.Chunk(r.u16())
+			switch r.intn(8) {
+			case 0:
+				c = 0 // terminating null
+			case 1:
+				c = rtcp.Chunk([]uint16{0x8000, 0x7FFF, 0xFFFF, 0x4000, 0x3FFF, 1}[r.intn(6)])
+			}
 			res.addStr(c.String())
 			res.addInt(int64(c.Type()))
 			rt, err := c.RunType()
@@ -106,6 +112,20 @@ func unitOp(res *opResult, kind int, seed uint64) {
 		res.addStr(rtcp.SDESType(r.intn(12)).String())
 		res.addStr(rtcp.BlockTypeType(r.intn(10)).String())
 		res.addStr(rtcp.TTLorHopLimitType(r.intn(5)).String())
+	case 11:
+		// the one constructor of the package: a fresh packet each time, nothing shared between calls
+		cname := r.text(r.intn(40))
+		a := lopNewCNAME(r.ssrc(), cname)
+		b := lopNewCNAME(a.Chunks[0].Source, cname)
+		res.addDump(dumpSem(a, false))
+		enc, err := vopUnitMarshal(a)
+		res.addBytes(enc)
+		res.addErr(err)
+		// editing one result must not show in the other
+		a.Chunks[0].Items[0].Text = "edited"
+		a.Chunks[0].Source++
+		res.addDump(dumpSem(b, false))
+		res.addStr(b.String())
 	case 10:
 		// arbitrary octets straight into a typed decoder and the datagram decoder
 		in := r.spareBytes(r.intn(64))
@@ -128,6 +148,11 @@ func unitOp(res *opResult, kind int, seed uint64) {
 			res.pre, res.post = pre, post
 		}
 	}
+}
+
+//go:noinline
+func lopNewCNAME(ssrc uint32, cname string) *rtcp.SourceDescription {
+	return rtcp.NewCNAMESourceDescription(ssrc, cname)
 }
 
 //go:noinline
